@@ -365,7 +365,21 @@ def run_case(con, fn, argdescs):
         except Exception as e:
             res['oracle_error'] = 'snapshot: %s: %s' % (type(e).__name__, e)
             return res
-    obs = run_real(fn, real_args)
+    eff = con.opts.get('effects') if hasattr(con, 'opts') else None
+    if hasattr(con, 'opts') and con.opts.get('contextmanager'):
+        # a generator-based context manager is exercised the way it is used: entered, an empty body, left
+        cm = fn
+
+        def fn(*a):
+            with cm(*a):
+                pass
+    if eff is not None:
+        # effectful library calls are recorded, not performed (spec/backend.py: intercept)
+        import spec.backend as _SB
+        with _SB.intercept(eff):
+            obs = run_real(fn, real_args)
+    else:
+        obs = run_real(fn, real_args)
     res['observed'] = outcome_desc(obs)
     ok = True
     if exp_fn is not None:
@@ -381,7 +395,11 @@ def run_case(con, fn, argdescs):
         try:
             result = obs[1] if obs[0] == 'return' else None
             exc = obs[1] if obs[0] == 'raise' else None
-            e_ok = bool(ens_fn(*(real_args + [result, exc] + ([snap] if snap is not None else []))))
+            if eff is not None:
+                with _SB.intercept(eff, record=False):
+                    e_ok = bool(ens_fn(*(real_args + [result, exc] + ([snap] if snap is not None else []))))
+            else:
+                e_ok = bool(ens_fn(*(real_args + [result, exc] + ([snap] if snap is not None else []))))
         except Exception as e:
             res['oracle_error'] = 'ensures: %s: %s' % (type(e).__name__, e)
             return res
